@@ -357,6 +357,8 @@ run_deflate(struct scn *s)
                 last_flush = c.flush;
                 o = vh_place(&outr, c.ao, VH_END, 0);
                 vh_window_fill(&outr, o, VH_CANARY);
+                if (s->prefill & 256) /* the prior contents of the output buffer are part of the scenario */
+                        prefill(o, c.ao, s->prefill & 15);
                 z->next_out = o;
                 z->avail_out = c.ao;
                 ai0 = z->avail_in;
@@ -591,6 +593,8 @@ run_inflate(struct scn *s)
                 }
                 o = vh_place(&outr, c.ao, VH_END, 0);
                 vh_window_fill(&outr, o, VH_CANARY);
+                if (s->prefill & 256)
+                        prefill(o, c.ao, s->prefill & 15);
                 st->next_out = o;
                 st->avail_out = c.ao;
                 ai0 = st->avail_in;
